@@ -133,6 +133,8 @@ structure OCtx where
   /-- `pos2.inv_mul(pos1).inverse()` is bit-identical to `pos1.inv_mul(pos2)`: both argument orders are evaluated on
   the same data, so the mirrored wrappers must agree exactly on every discrete verdict (ties included) -/
   exact : Bool := false
+  /-- no ball / half-space involved: penetration depths come from GJK + EPA -/
+  epa : Bool := false
 
 def OCtx.tag (c : OCtx) : String := s!"pair={c.pair}" ++ (if c.concentric then " concentric" else "")
 /-- scalars: 1e-6 relative to the values and the size of the shapes -/
@@ -153,7 +155,8 @@ def mkCtx (a : WShape) (m1 : Iso3 Float) (b : WShape) (m2 : Iso3 Float) (g : Iso
   { S := vmag (q3 m1.t) + vmag (q3 m2.t) + vmag G.t + (vmag (q3 m1.t) + vmag (q3 m2.t)), sz := wsize a + wsize b,
     ball := a.isBall || b.isBall, G := G, pair := s!"{wkind a}/{wkind b}",
     concentric := (q m1.t.x == q m2.t.x) && (q m1.t.y == q m2.t.y) && (q m1.t.z == q m2.t.z),
-    composite := a.isComposite || b.isComposite }
+    composite := a.isComposite || b.isComposite,
+    epa := !(a.isBall || b.isBall || a.isHalfSpace || b.isHalfSpace) }
 
 /-- a result followed by `@ m1 m2` (distances of the two witnesses to their own shapes, from the point query) -/
 def splitAt (toks : List String) : List String × List String :=
@@ -183,7 +186,10 @@ def cmpContact (c : OCtx) (what : String) (pred : Rat) (exact : Bool) (a b : Opt
     else if c.scal x.dist pred then none else some s!"{what}-none-vs-some {c.tag} dist={x.dist.toF} prediction={pred.toF}"
   | some x, some y =>
     if isNull x || isNull y then some s!"{what}-null-contact {c.tag} (zero normals, dist 0: EPA gave up)"
-    else if !c.scal x.dist y.dist then
+    else if !c.scal x.dist y.dist &&
+        !(c.epa && x.dist ≤ (1 / 1000000) * (1 + c.sz) && y.dist ≤ (1 / 1000000) * (1 + c.sz) && rabs (x.dist - y.dist) ≤ c.wtol x.dist) then
+      -- (penetration depths from EPA are only reproducible to the witness tolerance: its polytope expansion stops at
+      --  a relative tolerance of about 1e-4 on round shapes)
       let t : Rat := (1 / 1000000) * (1 + c.sz)
       some s!"{what}-dist {c.tag}{if x.dist ≤ t && y.dist ≤ t then " penetrating" else ""} a={x.dist.toF} b={y.dist.toF}"
     else if x.dist ≤ (1 / 1000000) * (1 + c.sz) || y.dist ≤ (1 / 1000000) * (1 + c.sz) then none
@@ -306,6 +312,11 @@ structure CastCtx where
   c : OCtx
   target : Rat
   maxtoi : Rat
+  /-- the motion starts with the shapes (numerically) at the target distance or closer: whether an impact at time 0
+  is reported is then decided by rounding -/
+  startsInContact : Bool := false
+  /-- size of the scene at the start (shapes + poses) -/
+  reach : Rat := 0
   /-- |vel2 - vel1| (upper bound) -/
   speed : Rat
 
@@ -341,14 +352,19 @@ def hitCross (k : CastCtx) (what : String) (stop : Bool) (a b : Option Hit) : Op
   | none, none => none
   | some x, none | none, some x =>
     -- a hit may be dropped at the boundaries: toi at max_toi, or (stop_at_penetration = false) a start in contact
-    if k.c.scal (x.toi * k.speed) (k.maxtoi * k.speed) || (!stop && x.toi * k.speed ≤ (1 / 1000) * (1 + k.c.sz)) || x.status != 1 then none
+    if k.c.scal (x.toi * k.speed) (k.maxtoi * k.speed) || (!stop && x.toi * k.speed ≤ (1 / 1000) * (1 + k.c.sz)) || x.status != 1
+       || (k.startsInContact && x.toi == 0)
+       || x.toi * k.speed > 1000000 * (1 + k.reach)   -- motion numerically parallel to the obstacle: "never" vs "after 1e6 sizes"
+    then none
     else some s!"{what}-hit-vs-none {tag} toi={x.toi.toF}"
   | some x, some y =>
-    if !k.c.scal (x.toi * k.speed) (y.toi * k.speed) then some s!"{what}-toi {tag} a={x.toi.toF} b={y.toi.toF}"
+    if k.startsInContact && (x.toi == 0 || y.toi == 0) then none
+    else if !k.c.scal (x.toi * k.speed) (y.toi * k.speed) then some s!"{what}-toi {tag} a={x.toi.toF} b={y.toi.toF}"
     else if x.status != y.status then
       (if x.toi * k.speed ≤ (1 / 1000) * (1 + k.c.sz) then none else some s!"{what}-status {tag} a={x.status} b={y.status}")
     else if x.status != 1 then none
-    else if k.c.ball && !(k.c.wit x.w1 y.w1 k.target && k.c.wit x.w2 y.w2 k.target) then some s!"{what}-witnesses {tag}"
+    else if k.c.ball && !k.c.composite && !(k.c.wit x.w1 y.w1 k.target && k.c.wit x.w2 y.w2 k.target) then
+      some s!"{what}-witnesses {tag}"   -- (a composite can be hit on two parts at the same time)
     else none
 
 def Hit.swapped (h : Hit) : Hit := ⟨h.toi, h.w2, h.w1, h.n2, h.n1, h.status, h.m2, h.m1⟩
@@ -367,9 +383,11 @@ def oracleCast (args out : List String) : String :=
     | "panic" :: _ => s!"fail panic {pairTag}"
     | _ =>
     match splitSemi out with
-    | [A, B, C, D] =>
+    | [A, B, C, D, aux] =>
       let c := mkCtx a m1 b m2 g
       let P1 := qiso3 m1; let P2 := qiso3 m2; let G := c.G
+      let d0 := (run pfo aux).getD (0.0 / 0.0)
+      let inContact := FloatIO.isFinite d0 && q d0 ≤ q target + (1 / 1000000) * (1 + c.sz) + tol * c.S
       if !(unitQ P1 && unitQ P2 && unitQ G) then "skip non-unit-rotation" else
       if unsupported A && unsupported B && unsupported C then "skip unsupported-pair" else
       if unsupported A || unsupported B || unsupported C then s!"fail support-differs-between-orders {c.tag}" else
@@ -381,7 +399,8 @@ def oracleCast (args out : List String) : String :=
         let vr := V2.sub V1
         let mt : Rat := if FloatIO.isFinite maxtoi then q maxtoi else 0
         let k : CastCtx := { c := { c with S := c.S + (vmag V1 + vmag V2) * (((x.map (·.toi)).getD 0) + 1) }, target := q target,
-                             maxtoi := mt, speed := vmag vr }
+                             maxtoi := mt, speed := vmag vr, startsInContact := inContact,
+                             reach := c.sz + vmag P1.t + vmag P2.t }
         firstSome [x.bind fun h => hitSelf k "a" h P1 V1 P2 V2,
                    y.bind fun h => hitSelf k "swapped" h P2 V2 P1 V1,
                    z.bind fun h => hitSelf k "frame" h (G.mul P1) (G.rot V1) (G.mul P2) (G.rot V2),
@@ -462,7 +481,8 @@ def oracleO2 (fn : String) (args out : List String) : String :=
         { S := 2 * (vmag2 (q2 m1.t) + vmag2 (q2 m2.t)) + vmag2 G.t, sz := a.size + b.size, ball := a.isBall || b.isBall,
           G := Iso3.identity, pair := s!"{a.kind}/{b.kind}",
           concentric := (q m1.t.x == q m2.t.x) && (q m1.t.y == q m2.t.y),
-          composite := a.isComposite || b.isComposite }
+          composite := a.isComposite || b.isComposite,
+          epa := !(a.isBall || b.isBall || a.isHalfSpace || b.isHalfSpace) }
       if !(unitC (qiso2 m1) && unitC (qiso2 m2) && unitC G) then "skip non-unit-rotation" else
       if unsupported A && unsupported B && unsupported C then "skip unsupported-pair" else
       if unsupported A || unsupported B || unsupported C then s!"fail support-differs-between-orders {c0.tag}" else
@@ -542,8 +562,9 @@ def oracleCast2 (args out : List String) : String :=
     | "panic" :: _ => s!"fail panic {pairTag}"
     | _ =>
     match splitSemi out with
-    | [A, B, C, D] =>
+    | [A, B, C, D, aux] =>
       let P1 := qiso2 m1; let P2 := qiso2 m2; let G := qiso2 g
+      let d0 := (run pfo aux).getD (0.0 / 0.0)
       let U1 := q2 v1; let U2 := q2 v2
       if !(unitC P1 && unitC P2 && unitC G) then "skip non-unit-rotation" else
       if unsupported A && unsupported B && unsupported C then "skip unsupported-pair" else
@@ -558,7 +579,9 @@ def oracleCast2 (args out : List String) : String :=
             ball := a.isBall || b.isBall, G := Iso3.identity, pair := s!"{a.kind}/{b.kind}", concentric := false,
             composite := a.isComposite || b.isComposite }
         let mt : Rat := if FloatIO.isFinite maxtoi then q maxtoi else 0
-        let k : CastCtx := { c := c, target := q target, maxtoi := mt, speed := vmag2 (U2.sub U1) }
+        let inContact := FloatIO.isFinite d0 && q d0 ≤ q target + (1 / 1000000) * (1 + c.sz) + tol * c.S
+        let k : CastCtx := { c := c, target := q target, maxtoi := mt, speed := vmag2 (U2.sub U1), startsInContact := inContact,
+                             reach := c.sz + vmag2 P1.t + vmag2 P2.t }
         let un (v : V3 Rat) : V2 Rat := ⟨v.x, v.y⟩
         let self2 (what : String) (h : Hit) (Pa : Iso2 Rat) (va : V2 Rat) (Pb : Iso2 Rat) (vb : V2 Rat) : Option String :=
           hitSelfW k what h (embed ((Pa.act (un h.w1)).add (va.smul h.toi))) (embed ((Pb.act (un h.w2)).add (vb.smul h.toi)))
